@@ -27,7 +27,7 @@ def max_allele(gts):
     return m
 
 
-def render_vcf(cols, records, extra_fields=False, contigs=None, positions=None, raw_lines=None, dot_fields=False):
+def render_vcf(cols, records, extra_fields=False, contigs=None, positions=None, raw_lines=None, dot_fields=False, missing_extra=False):
     """records: list of lists of GT strings (one per column). raw_lines: {index: raw text line} replaces a record by
     arbitrary (corrupt) text."""
     out = list(HEADER_LINES)
@@ -45,6 +45,13 @@ def render_vcf(cols, records, extra_fields=False, contigs=None, positions=None, 
             fmt = "GT:DP:GQ"
             # a sample whose GT is the missing value: the whole sample as '.', or (dot_fields) '.' next to the other values
             samples = [g + ":%d:%d" % (10 + j, 30 + j) if (g != "." or dot_fields) else "." for j, g in enumerate(gts)]
+            if missing_extra:
+                # the OTHER values of a sample missing ('0/1:.:30', '1/1:11:.', '0/0:.:.') while its GT is called (or not)
+                def vary(j, sv):
+                    gt = sv.split(":")[0]
+                    k = (j + i) % 4
+                    return sv if k == 0 or sv == "." else ("%s:.:%d" % (gt, 30 + j) if k == 1 else "%s:%d:." % (gt, 10 + j) if k == 2 else "%s:.:." % gt)
+                samples = [vary(j, sv) for j, sv in enumerate(samples)]
             info = "DP=%d" % (50 + i)
         else:
             fmt = "GT"
